@@ -13,10 +13,16 @@ CLAIMS = {
          "Sampling, not proof. Chosen validators are read from the stored request (their correctness is C09). Script semantics limited to six harness scripts; wasm VM trusted. IBC-originated requests not generated."),
  "C03": ("§5/C03", "Every MsgSubmitSignature is predicted by an independent big-integer Schnorr/Lagrange verifier (ref/schnorr) and compared with the chain's accept/reject; each completed signing's published signature is re-verified independently against group key and message; partial-signature store equals the accepted set. Byzantine members corrupt exactly one component (R, s, signer, member id, message, committee, nonce).",
          "Sampling: committees/keys/messages drawn along histories, not enumerated (a single wrong Lagrange-table entry is found only if a committee using it is drawn). Group and member public keys are taken from chain state (their correctness is C04)."),
+ "C04": ("§5/C04", "Members run the DKG rounds with the real pkg/tss functions and the real cylinder share handling (verif-tagged export); deviating members corrupt shares, complain falsely, forge key-sym/signatures, send wrong-length commitments, replay, impersonate or stay silent. Model of accepted round messages, expected complaint outcomes and malicious flags compared with the chain every block; honest members never blamed; on ACTIVE the group key and every member key are recomputed from the accepted commitments with independent big-integer arithmetic and threshold / threshold-1 subsets of the members' own derived shares are interpolated; FALLEN/EXPIRED/clean-up rules.",
+         "Sampling. Shares dealt to deviating recipients are not checked (they may collude). A change that only prevents groups from ever becoming ACTIVE does not violate the statement (reported as a zero probe, not a violation)."),
  "C05": ("§5/C05", "FIFO queue model per member fed by accepted MsgSubmitDEs/MsgResetDE; every assignment announced by an ordered request_signature event must pop the model queue head, never a consumed or reset pair; persisted attempts cross-checked against events; on-chain queues equal model queues after every block; over-limit submissions predicted.",
          "Sampling. Assignment order inside a block is taken from the ordered event stream and cross-checked against the persisted attempts. Signing creations that fail after a dequeue are provoked by multi-message transactions and tight gas."),
  "C09": ("§5/C09", "Rolling seed recomputed independently from the block hashes the conductor produced; for every accepted data request the committee is recomputed with an own NIST SP 800-90A HMAC-DRBG and an own implementation of the sampling specification over the model's eligible set (bonded, oracle-active, power-index order) and compared with the stored request (order included); for every signing attempt the eligible list (active, queued nonce in the model, id order) and partial Fisher-Yates are recomputed and compared; too-few-eligible must be rejected. Plus a differential run of the real sampler on tiny boundary-hitting weights per block.",
          "Sampling over (seed, id, weights) produced by histories; totals near 2^64 not reachable through bonded stake. Requests in a block after a staking transaction are skipped (power index may have moved)."),
+ "C13": ("§5/C13", "Ledger model of payers, data-source treasuries, signing members and the bandtss escrow compared with bank balances after every block; fee limits drawn at cost-1 / cost / cost+1 / missing denom, poor payers; accept => exact movement within the limit, fee-rejection => model cost really exceeds the limit; payouts exactly once to the assigned members of the final attempt of the current-group signing, nothing for FALLEN or incoming-group signatures; escrow covers unfinished paid signings. Profiles: oracle with fee-bearing data sources, TSS with retries, governance transitions.",
+         "Sampling. Inflation and community tax are switched off in these profiles so that only the services move coins. Rejected transactions are atomic by the SDK's transaction semantics; the end-block creations (oracle result signing) are checked through the ledger. IBC relay-paid requests are not generated."),
+ "C18": ("§5/C18", "Executable specification state machine of the single transition slot advanced per block in end-blocker order (gov, tss, bandtss) from facts owned by other modules (proposal executed, DKG outcome, hand-over signing outcome, block time) and compared with the chain's current group, transition record and module member list after every block; proposal acceptance predicted (window, in-progress, forced-group validity); requests while a transition awaits execution must create a current-group signing and at most an incoming-group one.",
+         "Sampling. DKG outcome and signing outcome are taken from chain state (their correctness is C04/C10). 'Without affecting the current group's signing' is decided by the C05/C09 checks, whose workloads include this profile."),
  "C10": ("§5/C10", "Per-attempt model: stored expiry = creation + period in force; time-out never early, exactly on time while the parameter is unchanged; SUCCESS in the block of the last share; retry iff attempts left and enough available members (model availability at that point of the end block) else FALLEN; penalised set = idle assigned members active in the owning module; status/attempt monotone; one outcome event; interim data removed; drain-phase liveness.",
          "Sampling. Ordering of end-block decisions is read from the ordered event stream; availability and activity flags are model state (queues, flags) updated from inputs and events. Penalty-set equality is skipped in blocks where the module's member list itself changed (transition)."),
 }
